@@ -74,8 +74,15 @@ static void tmpl_symcipher(Buf *t, const uint8_t *uniq, int nuniq) {
     b_u16(t, ALG_AES); b_u16(t, 128); b_u16(t, ALG_CFB);
     b_2b(t, uniq, nuniq);
 }
+static void tmpl_cmac(Buf *t, const uint8_t *uniq, int nuniq) {
+    b_reset(t); b_u16(t, ALG_SYMCIPHER); b_u16(t, ALG_SHA256);
+    b_u32(t, 0x00040472u /* sign */); b_u16(t, 0);
+    b_u16(t, ALG_AES); b_u16(t, 128); b_u16(t, 0x003F /* CMAC */);
+    b_2b(t, uniq, nuniq);
+}
 static Rsp w_create_primary(World *w, Buf *b, uint32_t hier, int kind, const uint8_t *uniq, int nuniq, const char *keyauth) {
     Buf t = {0};
+    if (kind == 4) tmpl_cmac(&t, uniq, nuniq); else
     if (kind == 0) tmpl_ecc_sign(&t, 0, uniq, nuniq); else if (kind == 3) tmpl_ecc_sign(&t, 1, uniq, nuniq);
     else if (kind == 1) tmpl_keyedhash(&t, uniq, nuniq); else tmpl_symcipher(&t, uniq, nuniq);
     cmd_begin(b, ST_SESSIONS, CC_CreatePrimary); b_u32(b, hier); auth_pw_s(b, w_hauth(w, hier));
@@ -90,7 +97,7 @@ static uint32_t w_rand_hier(void) { static const uint32_t hs[] = {RH_OWNER, RH_O
 
 static void op_create_primary(World *w, Buf *b) {
     if (w->nobj >= 3) return;
-    uint32_t hier = w_rand_hier(); int kind = rnd(4);
+    uint32_t hier = w_rand_hier(); int kind = rnd(5);   /* 4: AES-CMAC key */
     uint8_t uq[4]; for (int i = 0; i < 4; i++) uq[i] = rnd(4);
     Rsp r = w_create_primary(w, b, hier, kind, uq, chance(50) ? 4 : 0, chance(50) ? "k" : "");
     if (r.rc == 0 && r.len >= 14) { WObj *o = &w->obj[w->nobj++]; o->h = g32(r.p + 10); o->kind = kind; o->hier = hier; o->persistent = 0; }
@@ -171,7 +178,12 @@ static void op_ctx_load(World *w, Buf *b) {
 }
 static void op_hash_seq(World *w, Buf *b) {
     if (w->nseq < 2 && w->nobj + w->nseq < 3 && chance(50)) {
-        int kind = rnd(3);
+        int kind = rnd(4);
+        if (kind == 3) { /* MAC_Start with an AES-CMAC key: its sequence state is a cipher state, not a hash state */
+            int k = -1; for (int i = 0; i < w->nobj; i++) if (w->obj[i].kind == 4) k = i;
+            if (k < 0) return;
+            cmd_begin(b, ST_SESSIONS, 0x15B /* MAC_Start */); b_u32(b, w->obj[k].h); auth_pw_s(b, chance(85) ? "k" : ""); b_u16(b, 0); b_u16(b, ALG_NULL);
+        } else
         if (kind == 0) { cmd_begin(b, ST_NO_SESSIONS, CC_HashSequenceStart); b_2b(b, "s", chance(50) ? 1 : 0); b_u16(b, chance(50) ? ALG_SHA256 : ALG_SHA1); }
         else if (kind == 1) { cmd_begin(b, ST_NO_SESSIONS, CC_HashSequenceStart); b_u16(b, 0); b_u16(b, ALG_NULL); }   /* event sequence */
         else { /* HMAC_Start needs a keyedhash key */
